@@ -25,7 +25,7 @@ STATE = {"n": 0, "phase": "run", "fired": False}
 
 KINDS = {
     "black.format_str": ["raise", "garbage", "different"],
-    "format-command": ["nonzero", "garbage", "different", "oserror"],
+    "format-command": ["nonzero", "garbage", "different", "oserror", "latin1"],
     "read_text": ["oserror"],
     "ensure_import": ["runtime"],
     "persist": ["oserror", "runtime"],
@@ -102,6 +102,10 @@ def install():
             r = orig_run(cmd, *a, **kw)
             if kind == "different":
                 return subprocess.CompletedProcess(cmd, 0, r.stdout + b"\n# injected trailing comment\n", b"")
+            if kind == "latin1":
+                # a formatter that writes its output in another encoding than utf-8
+                out = r.stdout.decode("utf-8").encode("latin-1", "replace")
+                return subprocess.CompletedProcess(cmd, 0, out, b"")
             return r
         return orig_run(cmd, *a, **kw)
 
